@@ -700,8 +700,67 @@ def run_strict(case):
     return out
 
 
+# --------------------------------------------------------------------------- frequency buffers whose reciprocal does not round-trip
+MAXF_GEOMS = ["pt_fmax", "ls_ceil", "poly_top", "bb_top", "mp_corners", "ml_ceil", "pt_0max"]
+MAXF_BUFFERS = [17.0, 34.0, 68.0, 136.0, 272.0, 285.0, 544.0, 3.0, 7.0, 0.1, 1.0 / 3.0, 22050.5]
+
+
+# --------------------------------------------------------------------------- dense outlines (hundreds of vertices)
+DENSE = {
+    "ellipse300": ("Polygon", [[[2.0 + 0.2 * math.cos(2 * math.pi * i / 300), 3000.0 + 2000.0 * math.sin(2 * math.pi * i / 300)]
+                                for i in range(300)]]),
+    "whistle501": ("LineString", [[1.0 + i / 250.0, 4000.0 + 1500.0 * math.sin(i / 20.0)] for i in range(501)]),
+}
+DENSE_BUFFERS = [(0.01, 100.0), (0.5, 125.0), (2.0 ** -7, 1.0)]
+DENSE_TOL = 1e-6  # in buffer units: GEOS offsets a many-vertex outline to ~1e-8 of the buffer (see the open C11 findings)
+
+
+def run_dense(case):
+    """Containment and reach of the bounds for outlines of hundreds of vertices (one state per geometry and buffer vector)."""
+    out = Out(case)
+    gtype, coords = DENSE[case["geom"]]
+    tb, fb = case["buffer"]
+    r = call(mkgeom(gtype, coords), tb, fb)
+    out.transitions = out.validated = 1
+    out.nontrivial = True
+    cls = {"kind": "dense_outline", "type": gtype, "geom": case["geom"], "root": "dense", "depth": 0, "fn": "buffer_geometry"}
+    if r[0] != "ok":
+        out.fail("valid_result", list(r), "a valid geometry", cls)
+        return out
+    res = to_shape(r[1].type, raw(r[1].coordinates))
+    orig = to_shape(gtype, coords)
+    exc = cover_excess(orig, res, units((tb, fb)))
+    out.expect("contains_original", exc is not None and exc <= DENSE_TOL, exc, "<= 1e-6 buffer units", cls)
+    ob, rb = orig.bounds, res.bounds
+    short = max((rb[0] - max(ob[0] - tb, 0.0)) / tb, (ob[2] + tb - rb[2]) / tb,
+                (rb[1] - max(ob[1] - fb, 0.0)) / fb, (min(ob[3] + fb, M) - rb[3]) / fb)
+    # the line's ends are oblique: its round caps are polygonised (an open finding, <= 0.5 % of the buffer), so its bounds get that much slack
+    tol = DENSE_TOL if gtype == "Polygon" else 0.005
+    out.expect("bounds_extend", short <= tol, {"shortfall_in_buffers": short}, "bounds reach the original's +/- buffer", cls)
+    out.klass = "dense:%s" % ("ok" if not out.viol else "viol")
+    return out
+
+
+def run_maxf(case):
+    """Geometries that reach MAX_FREQUENCY buffered in frequency by values b with (MAX * (1 / b)) / (1 / b) != MAX in doubles (and a
+    few others): the result is a geometry of the domain (the call returns; nothing above MAX_FREQUENCY)."""
+    out = Out(case)
+    gtype, coords = POOL_BY_ID[case["geom"]]
+    out.transitions = out.validated = 1
+    out.nontrivial = True
+    if not constructible(gtype, coords):
+        out.vac("valid_result")
+        return out
+    r = call(mkgeom(gtype, coords), 0.5, case["fb"])
+    cls = {"kind": "max_frequency_buffers", "type": gtype, "geom": "maxf", "root": "maxf", "depth": 0, "fn": "buffer_geometry"}
+    top = max(_flat(raw(r[1].coordinates))[1::2]) if r[0] == "ok" and gtype not in TIME_ONLY else None
+    out.expect("valid_result", r[0] == "ok" and (top is None or top <= M), [r[0], r[1] if r[0] != "ok" else top], "a geometry within the domain", cls)
+    out.klass = "maxf:%s" % r[0]
+    return out
+
+
 def blocks(tier):
-    return [{"root": pid, "tier": tier} for pid in POOL_IDS] + [{"root": "@twins", "tier": tier}, {"root": "@repr", "tier": tier},
+    return [{"root": pid, "tier": tier} for pid in POOL_IDS] + [{"root": "@maxf", "tier": tier}, {"root": "@dense", "tier": tier}] + [{"root": "@twins", "tier": tier}, {"root": "@repr", "tier": tier},
                                                                 {"root": "@strict", "tier": tier}]
 
 
@@ -715,6 +774,16 @@ def run_block(block, rec):
     if root == "@twins":
         for case in twin_cases():
             rec.add(run_twin(case))
+        return
+    if root == "@dense":
+        for gid in DENSE:
+            for b in DENSE_BUFFERS:
+                rec.add(run_dense({"dense": 1, "geom": gid, "buffer": list(b)}))
+        return
+    if root == "@maxf":
+        for gid in MAXF_GEOMS:
+            for fb in MAXF_BUFFERS:
+                rec.add(run_maxf({"maxf": 1, "geom": gid, "fb": fb}))
         return
     if root == "@repr":
         for gid in REPR_GEOMS:
@@ -778,6 +847,10 @@ def replay_case(case):
         return run_twin(case)
     if "repr" in case:
         return run_repr(case)
+    if "maxf" in case:
+        return run_maxf(case)
+    if "dense" in case:
+        return run_dense(case)
     if "strict" in case:
         return run_strict(case)
     use_tier(case.get("tier"))
